@@ -38,7 +38,7 @@ func (c c17Case) desc() (*Desc, map[string]string) {
 		plinger = " ; sleep 0.08"
 	}
 	if c.Linger == "consumer" {
-		clinger = " ; sleep 0.08"
+		clinger = " ; sleep 0.4" // long enough for the producer's record to be complete under any load seen (see F15)
 	}
 	// producer: deterministic payload of c.Bytes bytes derived from its input
 	prod := fmt.Sprintf(`( (cat {i:in} ; head -c %d /dev/zero | tr '\0' 'x') > {os:out}%s )`, c.Bytes, plinger)
@@ -125,6 +125,10 @@ func runC17(ctx *Ctx, c c17Case) {
 		u := a.Upstream[in+".stream"]
 		if u == nil || u.ProcessName != "prod" {
 			class := "c17.audit-link"
+			if c.Linger == "consumer" {
+				// not F15: the consumer ends well after the producer has written its record
+				class = "c17.audit-link-late-consumer"
+			}
 			ctx.Res.Violate(Violation{What: fmt.Sprintf("consumer's audit record does not name the producer as upstream of %s.stream (found %+v)", in, summarize(u)), Class: class, Witness: c})
 		}
 	}
